@@ -963,7 +963,12 @@ class StateEngine(object):
         has_terminated = any("terminated" in r for r in all_branch_results.values())
 
         results_pending = False
-        for results in all_branch_results.values():
+        """
+        Iterate over a snapshot. Cancelling a Task below runs its callback,
+        which can add or remove branch_results entries of this execution, and
+        changing the size of a dict while iterating it raises RuntimeError.
+        """
+        for results in list(all_branch_results.values()):
             if has_terminated:
                 result = results["results"]
                 event_ids = results["ids"]
@@ -1000,7 +1005,7 @@ class StateEngine(object):
                         else:
                             results_pending = True
 
-        for results in all_branch_results.values():
+        for results in list(all_branch_results.values()):
             event_ids = results["ids"]
             #print("Acknowledging event_ids:")
             #print(event_ids)
